@@ -337,6 +337,78 @@ let run_lu (h : (string, string) Hashtbl.t) : string =
     Buffer.contents buf
   end
 
+(* ---------------- low-level API with a scripted SolOut ---------------- *)
+type cbst = { cnt : int; trace : (float * float * float list * bool * float list) list }
+
+let run_lowlevel (h : (string, string) Hashtbl.t) : string =
+  let buf = Buffer.create 4096 in
+  let fexprs = parse_exprs (get h "f" "0:") in
+  let f t y = let ya = Array.of_list y in List.map (fun e -> eval e t ya) fexprs in
+  let jacspec = get h "jac" "none" in
+  let pr_jac = if jacspec = "none" then None else begin
+      let i = String.index jacspec ':' in
+      let n = int_of_string (String.sub jacspec 0 i) in
+      let es = Array.of_list (List.map parse_expr (split_on ';' (String.sub jacspec (i + 1) (String.length jacspec - i - 1)))) in
+      Some (fun t y -> let ya = Array.of_list y in
+             List.init n (fun r -> List.init n (fun c -> eval es.(r * n + c) t ya)))
+    end in
+  let pr = { pr_f = f; pr_events = (fun _ _ -> []); pr_nevents = O; pr_evcfg = []; pr_jac = pr_jac; pr_mass = None } in
+  let x0 = unhx (Hashtbl.find h "x0") and xend = unhx (Hashtbl.find h "xend") in
+  let y0 = unlist (Hashtbl.find h "y0") in
+  let full = get h "full" "0" = "1" in
+  let meth = parse_method (Hashtbl.find h "method") in
+  let opt = {
+    o_method = meth;
+    o_rtol = parse_tol (Hashtbl.find h "rtol"); o_atol = parse_tol (Hashtbl.find h "atol");
+    o_max_steps = Some (n_of_string (Hashtbl.find h "maxsteps"));
+    o_t_eval = None;
+    o_first_step = opt_f (get h "firststep" "none");
+    o_max_step = opt_f (get h "maxstep" "none");
+    o_min_step = None;
+    o_dense = true;
+    o_defaults = unlist (get h "defaults" "0:");
+    o_nstiff = n_of_int (int_of_string (get h "nstiff" "1000"));
+    o_jac_storage = SFull; o_mass_storage = SIdentity;
+  } in
+  let actions = Hashtbl.create 8 in
+  let sb = body_after_colon (get h "script" "0:") in
+  if sb <> "" then List.iter (fun t -> match split_on '/' t with
+      | [i; a; v] -> Hashtbl.replace actions (int_of_string i) (a.[0], unhx v)
+      | _ -> failwith "script") (split_on ',' sb);
+  let n = nat_of_int (List.length y0) in
+  let cb (st : cbst) xold x y sg =
+    let mid = xold +. 0.5 *. (x -. xold) in
+    let ym = match sg with
+      | Some ((cont, xo), hh) -> interp_fn fops meth cont xo hh mid n
+      | None -> List.map (fun _ -> 0.0) y in
+    let st' = { cnt = st.cnt + 1; trace = (xold, x, y, (sg <> None), ym) :: st.trace } in
+    match Hashtbl.find_opt actions st.cnt with
+    | Some ('I', _) -> ((st', Interrupt), y)
+    | Some ('M', v) -> ((st', ModifiedSolution), List.map (fun yi -> yi *. v) y)
+    | Some ('N', _) -> ((st', ModifiedSolution), y)
+    | _ -> ((st', Continue), y) in
+  (match run_method fops pr x0 xend y0 opt cb { cnt = 0; trace = [] } fuel with
+   | None -> Buffer.add_string buf "error\n"
+   | Some (((((((status, st), log), cbs), hfin), jl), _), _) ->
+     Buffer.add_string buf (Printf.sprintf "status %s\n" (status_name status));
+     Buffer.add_string buf (Printf.sprintf "stats %s %s %s %s %s %s\n" (string_of_n st.nfev) (string_of_n st.njev)
+                              (string_of_n st.nlu) (string_of_n st.nstep) (string_of_n st.naccpt) (string_of_n st.nrejct));
+     Buffer.add_string buf (Printf.sprintf "hfinal %s\n" (hx hfin));
+     let tr = List.rev cbs.trace in
+     let hh = ref 0xcbf29ce484222325L in
+     let word (w : int64) = hh := Int64.mul (Int64.logxor !hh w) 1099511628211L in
+     List.iter (fun (xo, x, y, has, ym) ->
+         word (bits xo); word (bits x); List.iter (fun v -> word (bits v)) y;
+         word (if has then 1L else 0L); List.iter (fun v -> word (bits v)) ym) tr;
+     let ntr = List.length tr in
+     Buffer.add_string buf (Printf.sprintf "trace %d 0x%016Lx\n" ntr !hh);
+     List.iteri (fun k (xo, x, y, has, ym) ->
+         if full || k < 3 || k + 2 >= ntr then
+           Buffer.add_string buf (Printf.sprintf " call %d %s %s %s %d %s\n" k (hx xo) (hx x) (hxlist y) (if has then 1 else 0) (hxlist ym))) tr;
+     log_summary "odelog" (List.rev log) full buf;
+     log_summary "jaclog" (List.rev jl) full buf);
+  Buffer.contents buf
+
 let () =
   try
     while true do
@@ -348,6 +420,7 @@ let () =
           try
             (match kind with
              | "solve" -> run_solve h
+             | "lowlevel" -> run_lowlevel h
              | "matrix" -> run_matrix h
              | "lu" -> run_lu h
              | _ -> "unknown-kind\n")
